@@ -177,6 +177,14 @@ pub fn compare_cell<M: ConvexCellMarker + 'static>(c: &Case, cell: &ConvexCell<M
         match lib.get(&rf.tag) {
             Some((a, cen)) => {
                 let da = (a - rf.area).abs();
+                if tol::lowdim_area_unreliable(c) {
+                    cs.count("known_lowdim_large_coordinates_faces_not_compared", 1);
+                    cs.label("known-finding:lowdim-large-coordinates");
+                    if matches!(rf.tag, Tag::Site(..)) && rf.area > thr {
+                        has_nonwall_face = true;
+                    }
+                    continue;
+                }
                 if a.max(rf.area) <= thr {
                     // both sides agree that the face is negligible: nothing is claimed about it
                     cs.count("negligible_faces_on_both_sides", 1);
@@ -214,6 +222,9 @@ pub fn compare_cell<M: ConvexCellMarker + 'static>(c: &Case, cell: &ConvexCell<M
         }
         let var = b.faces.get(key).map_or(0., |f| f.area);
         let tola = VAR_FACTOR * var + eps * 2. * std::f64::consts::PI * (b.r3 + eps);
+        if tol::lowdim_area_unreliable(c) {
+            continue;
+        }
         if *a > thr + tola {
             geometric_mismatch!("cell {i}: SPURIOUS face {:?} of area {:e} (threshold {:e}, tol {:e}), absent from the brute-force cell", key, a, thr, tola);
         }
